@@ -1368,6 +1368,8 @@ func hardcoded(fr *Frame, f *ssa.Function, cc *ssa.CallCommon, site ssa.Instruct
 				l := fr.locOf(tgt)
 				fr.growAlloc()
 				v := fr.freshOfType("decoded", pt.Elem())
+				// whatever the decoder allocated exists once it returns
+				fr.assumeAliveDeep(v, pt.Elem(), 2)
 				fr.store(l, v)
 				ok = true
 			}
@@ -1377,6 +1379,44 @@ func hardcoded(fr *Frame, f *ssa.Function, cc *ssa.CallCommon, site ssa.Instruct
 		}
 		c.assumed["encoding/json decoding writes only through its target pointer (decoded value arbitrary)"] = true
 		return []Term{fr.freshOfType("jsonerr", errT)}, true
+	case "sync/atomic.LoadInt32", "sync/atomic.CompareAndSwapInt32":
+		// other goroutines may have written the word since this goroutine last looked at it;
+		// a declared rely (`atomic T.f changes-only-from n`) limits that interference, and every
+		// atomic write to such a field owes the matching guarantee
+		fa, isField := cc.Args[0].(*ssa.FieldAddr)
+		if !isField {
+			return nil, false
+		}
+		l := fr.locOf(fa)
+		cur := fr.load(l)
+		var rely *AtomicRely
+		if st, ok := fa.X.Type().Underlying().(*types.Pointer); ok {
+			if n, ok := st.Elem().(*types.Named); ok && n.Obj().Pkg() != nil {
+				sst, _ := structOf(st.Elem())
+				rely = c.P.Specs.Atomics[n.Obj().Pkg().Path()+"."+n.Obj().Name()+"."+sst.Field(fa.Field).Name()]
+			}
+		}
+		now := fr.freshOfType("atomicword", l.ty)
+		if rely != nil {
+			c.assert(implies(fr.pc, fmt.Sprintf("(=> (not (= %s %d)) (= %s %s))", cur, rely.From, now, cur)))
+		}
+		if key == "sync/atomic.LoadInt32" {
+			fr.store(l, now)
+			return []Term{now}, true
+		}
+		if rely != nil {
+			top := fr.topFrame()
+			ord := top.callOrd["atomic-guarantee"]
+			top.callOrd["atomic-guarantee"] = ord + 1
+			c.oblige(&Obligation{Name: fr.oblName("atomic", fmt.Sprintf("CompareAndSwap#%d/guarantee:changes-only-from-%d", ord, rely.From)), Kind: "guarantee",
+				Label: "atomic-guarantee", Props: top.propsOfContract(), PC: fr.pc, Goal: fmt.Sprintf("(= %s %d)", args[1], rely.From),
+				Where: c.P.pos(site.Pos()) + " (" + rely.Where + ")", Src: fmt.Sprintf("the expected old value of the compare-and-swap is %d", rely.From)})
+		}
+		ok := c.fresh(fr.id+"_cas", "Bool")
+		c.assert(implies(fr.pc, "(= "+ok+" (= "+now+" "+args[1]+"))"))
+		fr.store(l, "(ite "+ok+" "+args[2]+" "+now+")")
+		c.assumed["sync/atomic operations are sequentially consistent single steps on the addressed word"] = true
+		return []Term{ok}, true
 	case "(*sync.Mutex).Lock", "(*sync.RWMutex).Lock", "(*sync.RWMutex).RLock",
 		"(*sync.Mutex).Unlock", "(*sync.RWMutex).Unlock", "(*sync.RWMutex).RUnlock":
 		// lock state: 0 free, 1 write-held, 2 read-held (by this thread)
@@ -1396,6 +1436,31 @@ func hardcoded(fr *Frame, f *ssa.Function, cc *ssa.CallCommon, site ssa.Instruct
 }
 
 func (fr *Frame) markFreshIface(r Term) {}
+
+// assumeAliveDeep: references and slices inside a struct value are allocated (or nil).
+func (fr *Frame) assumeAliveDeep(t Term, ty types.Type, depth int) {
+	fr.assumeAlive(t, ty)
+	if depth == 0 {
+		return
+	}
+	if st, ok := structOf(ty); ok && fr.c.sortOf(ty) != "Ref" {
+		for i := 0; i < st.NumFields(); i++ {
+			fr.assumeAliveDeep(fr.c.fieldOf(ty, t, i), st.Field(i).Type(), depth-1)
+		}
+	}
+}
+
+func (fr *Frame) propsOfContract() []string {
+	if fr.fc == nil {
+		return nil
+	}
+	var out []string
+	for p := range contractProps(fr.fc) {
+		out = append(out, p)
+	}
+	sort.Strings(out)
+	return out
+}
 
 // sprintfConcat: Sprintf(format, args...) where format is a constant whose only verbs are
 // %s (and %%) and every argument is a string or a named string type without methods
@@ -1553,6 +1618,9 @@ func (fr *Frame) checkEnsures(ret *ssa.Return, rs []Term) {
 	fr.checkFrame(ret)
 	retOrd := fr.returnOrdinal(ret)
 	for _, en := range fr.fc.Ensures {
+		if en.Assumed {
+			continue
+		}
 		if en.AtReturn >= 0 && en.AtReturn != retOrd {
 			continue
 		}
@@ -1832,6 +1900,12 @@ func (fr *Frame) checkFrame(ret *ssa.Return) {
 	c := fr.c
 	fc := fr.fc
 	if fc == nil || !fc.HasMod {
+		return
+	}
+	if fc.Opts["trust-frame"] {
+		// the declared frame is assumed (reader state reached through interface calls is not
+		// followed); the function's other obligations are still generated
+		c.assumed["assumed frame (opt trust-frame) of "+fc.Name+": modifies "+strings.Join(fc.Modifies, ", ")+" ("+fc.Where+")"] = true
 		return
 	}
 	declared := map[string]bool{}
